@@ -227,6 +227,14 @@ class World:
                 vals = [Member(ecls.name, n) for n in ecls.enum_members()]
                 if with_invalid and "str" in txt:
                     vals.append(Const("<not-a-member>"))
+                    # a lenient lookup hook (_missing_) makes other spellings valid: try a differently cased and a
+                    # padded spelling of every member (a guard that compares the raw argument no longer sees them)
+                    if ecls.lookup("_missing_") is not None:
+                        for n, val in ecls.enum_members().items():
+                            if isinstance(val, str) and val:
+                                for alt in (val.upper() if val.upper() != val else val.lower(), f" {val}"):
+                                    if alt != val:
+                                        vals.append(Const(alt))
                 out.append((p.arg, vals))
             elif txt == "bool":
                 out.append((p.arg, [FALSE, TRUE]))
